@@ -175,10 +175,10 @@ fn run_cli(dir: &PathBuf, case: &Case, inputs: &[PathBuf], cfg: Option<Cfg>, idx
         Some(c) => format!("batch-size={} fd-limit={} threads={} sched-seed={}", c.batch, c.fd, c.threads, c.sched),
         None => "--sorted".to_string(),
     };
-    // normal runs take milliseconds; one that is still running after two minutes has hung
+    // normal runs take milliseconds; one that is still running after 45 seconds has hung
     let mut child = cmd.stdout(std::process::Stdio::null()).stderr(std::process::Stdio::piped()).spawn().map_err(|e| Fail::new("harness-io", format!("cannot run {:?}: {}", fst_bin(), e)))?;
     let t0 = std::time::Instant::now();
-    let limit = std::time::Duration::from_secs(std::env::var("VERIF_CLI_TIMEOUT_S").ok().and_then(|s| s.parse().ok()).unwrap_or(120));
+    let limit = std::time::Duration::from_secs(std::env::var("VERIF_CLI_TIMEOUT_S").ok().and_then(|s| s.parse().ok()).unwrap_or(45));
     loop {
         match child.try_wait() {
             Ok(Some(_)) => break,
